@@ -31,6 +31,7 @@ type vfInstCfg struct {
 	RewriteSize  uint
 	NDb          int
 	Manual       bool
+	Now          int64 // virtual time of the start (0 = wall clock); with Now set the databases exist, on that clock, before the log is loaded
 }
 
 type vfInstance struct {
@@ -67,10 +68,29 @@ func vfNewLeader(cfg vfInstCfg) (*vfInstance, error) {
 		AofRingBufferSize: 1 << 16, AofRingBufferMaxSize: 1 << 20}
 	verifManual = cfg.Manual
 	s := NewSLock(sc, vfGetLogger())
-	if err := s.initLeader(); err != nil {
-		return nil, err
-	}
 	in := &vfInstance{slock: s, cfg: cfg, now: time.Now().Unix()}
+	if cfg.Now != 0 {
+		// a restart at virtual time Now: the loader computes remaining expiry
+		// times from LockDB.currentTime, so the databases must be on the
+		// virtual clock before LoadAndInit replays the log
+		in.now = cfg.Now
+		for d := 0; d < cfg.NDb; d++ {
+			db := s.GetOrNewDB(uint8(d))
+			db.currentTime = in.now
+			db.checkTimeoutTime = in.now + 1
+			db.checkExpriedTime = in.now + 1
+		}
+	}
+	if err := s.initLeader(); err != nil {
+		// returned non-nil so that the caller can stop the goroutines of the
+		// databases the loader created before it gave up
+		for _, db := range s.dbs {
+			if db != nil {
+				in.dbs = append(in.dbs, db)
+			}
+		}
+		return in, err
+	}
 	for d := 0; d < cfg.NDb; d++ {
 		db := s.GetOrNewDB(uint8(d))
 		in.dbs = append(in.dbs, db)
@@ -344,7 +364,10 @@ var vfPointNames = map[int]string{
 	VP_UNLOCK_PRE_WAKE: "UNLOCK_PRE_WAKE", VP_WAKE_LOOP: "WAKE_LOOP", VP_WAKE_UNLOCKED: "WAKE_UNLOCKED",
 	VP_TIMEOUT_ENTER: "TIMEOUT_ENTER", VP_TIMEOUT_UNLOCKED: "TIMEOUT_UNLOCKED", VP_EXPIRE_ENTER: "EXPIRE_ENTER",
 	VP_EXPIRE_UNLOCKED: "EXPIRE_UNLOCKED", VP_ACK_ENTER: "ACK_ENTER", VP_ACK_UNLOCKED: "ACK_UNLOCKED", VP_CANCEL_UNLOCKED: "CANCEL_UNLOCKED",
-	VP_AOF_FLUSH_MID: "AOF_FLUSH_MID",
+	VP_AOF_FLUSH_MID: "AOF_FLUSH_MID", VP_REWRITE_FILE_CLOSED: "REWRITE_FILE_CLOSED", VP_REWRITE_FILE_OPENED: "REWRITE_FILE_OPENED",
+	VP_REWRITE_TMP_CREATED: "REWRITE_TMP_CREATED", VP_REWRITE_TMP_CLOSED: "REWRITE_TMP_CLOSED", VP_REWRITE_REMOVED: "REWRITE_REMOVED",
+	VP_REWRITE_REMOVED_DAT: "REWRITE_REMOVED_DAT", VP_REWRITE_RENAMED: "REWRITE_RENAMED", VP_REWRITE_RENAMED_DAT: "REWRITE_RENAMED_DAT",
+	VP_REWRITE_ENTER: "REWRITE_ENTER", VP_REWRITE_EXIT: "REWRITE_EXIT",
 }
 
 // vfSettledPoints: yield points at which every completed critical section has
@@ -380,6 +403,7 @@ type vfEngine struct {
 	onQueued    func(r *vfReq) // request returned without a reply
 	onStep      func()         // after each top-level or injected op completes
 	onHook      func(point int)
+	onAofPoint  func(point int) // log / compaction crash points (called on AOF goroutines, log mutex may be held)
 	nKeys       int
 	nLockIds    int
 	curPoint    int
@@ -392,10 +416,15 @@ type vfEngine struct {
 	mainGoid    uint64
 }
 
+// vfKeyEpoch separates the key spaces of the phases of a restart script (the
+// holds a restart restored stay untouched by the workload that follows it).
+var vfKeyEpoch byte
+
 func vfKeyBytes(db uint8, k int) [16]byte {
 	var b [16]byte
 	b[0] = byte(k)
 	b[1] = byte(k >> 8)
+	b[2] = vfKeyEpoch
 	b[7] = 'K'
 	b[15] = 0x5a
 	return b
@@ -713,6 +742,9 @@ func (e *vfEngine) onPoint(point int) {
 		// log / compaction crash points are called with the log mutex held:
 		// nothing to interleave here in this engine
 		atomic.AddInt64(&e.pointHits[point], 1)
+		if e.onAofPoint != nil {
+			e.onAofPoint(point)
+		}
 		return
 	}
 	if point == VP_ACK_ENTER || point == VP_ACK_UNLOCKED {
